@@ -184,8 +184,30 @@ type PanicInfo struct {
 // code; the innermost orb frame when the panic surfaced in the standard
 // library below it; "dep:<package>" when it surfaced in a third-party
 // dependency (so that a dependency's defect is not confused with orb's).
-func (pi *PanicInfo) ClassDetail() string {
-	top := pi.TopFunc
+func (pi *PanicInfo) ClassDetail() string { return classDetail(pi.TopFunc, pi.OrbFunc) }
+
+// ClassifyStack applies the same attribution to a goroutine dump (innermost
+// frame first): used for hangs, where the watchdog dumps the stacks.
+func ClassifyStack(funcs []string) string {
+	top, orb := "", ""
+	for _, f := range funcs {
+		if strings.HasPrefix(f, "runtime.") || strings.HasPrefix(f, "runtime/") {
+			continue
+		}
+		if top == "" {
+			top = f
+		}
+		if orb == "" && strings.HasPrefix(f, "github.com/paulmach/orb") && !strings.Contains(f, "/verifrt.") {
+			orb = f
+		}
+	}
+	if top == "" {
+		return "unknown"
+	}
+	return classDetail(top, orb)
+}
+
+func classDetail(top, orbFunc string) string {
 	if strings.HasPrefix(top, "github.com/paulmach/orb") {
 		return top
 	}
@@ -195,8 +217,8 @@ func (pi *PanicInfo) ClassDetail() string {
 	}
 	if !strings.Contains(first, ".") || strings.HasPrefix(top, "verif/") {
 		// standard library (or harness) frame on top
-		if pi.OrbFunc != "" {
-			return pi.OrbFunc
+		if orbFunc != "" {
+			return orbFunc
 		}
 		return top
 	}
